@@ -21,6 +21,8 @@ def plans(tier):
             (3, 2, "q", "e3", [("gaussian", None), ("bosonic", None)]),
             (2, 1, "q", "e2", [("fockmixed", 10), ("fock", 12)]),
             (3, 1, "q", "p3", [("fock", 9), ("fockmixed", 6)]),
+            (4, 1, "q", "x4", [("gaussian", None), ("bosonic", None), ("fock", 7)]),
+            (3, 1, "q", "x3", [("fockmixed", 8)]),
         ]
     return [
         (3, 2, "g", "e3", [("gaussian", None), ("bosonic", None)]),
